@@ -1,2 +1,3 @@
 import GGen.Moves
 import GGen.CacheKeys
+import GGen.JumpStep
